@@ -53,6 +53,13 @@ func (n *HNAL) nal() []byte {
 	if b[len(b)-1] == 0 {
 		b[len(b)-1] = 0x80
 	}
+	if n.Seed&0x30000 == 0x10000 && len(b) >= 6 {
+		// an RBSP that ends in zero words gets a final emulation-prevention byte: the unit ends in 00 00 03
+		b[len(b)-3], b[len(b)-2], b[len(b)-1] = 0, 0, 3
+		if b[len(b)-4] == 0 {
+			b[len(b)-4] = 0x55
+		}
+	}
 
 	return b
 }
@@ -62,6 +69,8 @@ type H265PayCase struct {
 	AddDONL         bool     `json:"add_donl"`
 	SkipAggregation bool     `json:"skip_aggregation"`
 	Calls           [][]HNAL `json:"calls"`
+	// Lead[k]: zero bytes in front of the first start code of call k (Annex B leading_zero_8bits)
+	Lead []int `json:"lead,omitempty"`
 }
 
 var (
@@ -200,6 +209,10 @@ func checkC14Pay(r *run, c *H265PayCase) (CaseInfo, error) {
 	var kept []keptH265 // what Packet() returned for every payload, read again after the whole stream was decoded
 	for callI, units := range c.Calls {
 		buf := annexB(units)
+		if callI < len(c.Lead) && c.Lead[callI] > 0 {
+			buf = append(make([]byte, c.Lead[callI]), buf...)
+			ci.class("zero-bytes-before-the-first-start-code")
+		}
 		orig := clone(buf)
 		payloads := pl.Payload(c.MTU, buf)
 		for pi, p := range payloads {
@@ -679,6 +692,7 @@ func genH265PayCase(t *rapid.T) *H265PayCase {
 			units = append(units, genHNAL(t, int(c.MTU), c.AddDONL, true))
 		}
 		c.Calls = append(c.Calls, units)
+		c.Lead = append(c.Lead, rapid.SampledFrom([]int{0, 0, 0, 1, 2, 3}).Draw(t, "lead"))
 	}
 	if rapid.IntRange(0, 9).Draw(t, "manysmall") == 6 {
 		// an access unit of many small units (VPS, SPS, PPS, SEIs, slice segments): 7-40 of them, a few bytes each,
@@ -768,7 +782,7 @@ func genH265DecCase1(t *rapid.T) *H265DecCase {
 	return c
 }
 
-const ruleC14 = "payloader: 1-2 calls of 1-6 (one case in ten: one call of 7-40 small) HEVC NAL units (types 0-47, layer 0-63, TID 1-7, F=1 rarely, sizes 3 bytes to several MTUs biased to MTU-4..MTU+4 and 2+k*(MTU-3)+-1 (one case in 60 holds a unit of 65530-131072 bytes), bodies free of start-code emulation), MTU >= 4 (>= 6 with DONL) biased to the floor and small values, SkipAggregation x AddDONL; every payload is parsed by an independent RFC 7798 parser and by H265Packet (all accessors must agree): <= MTU, single = unit (+DONL), AP type 48/F=0/min layer/min TID/>=2 units, FU trains >=2 with S/E placement and FuType/F/layer/TID preserved, DONL placement, IsPartitionHead, byte-exact reassembly. decoder: reference-built single/AP(2-6 units)/FU(start,middle,end)/PACI(+TSCI) payloads with and without DONL/DOND and every truncation: too-short ones rejected, others read field by field as the reference parser; half of the cases decode 1-3 other payloads through the same H265Packet first, and the payloader check decodes every stream through one H265Packet besides a fresh one per payload (readings must agree, and what Packet() returned for earlier payloads must still read the same at the end). accessors: all 2^16 payload headers, 2^8 FU headers, 2^16 PACI field words, TSCI triples (2^24 in thorough). Non-trivial = AP together with an FU train, unit length within the single-packet threshold window, AP>=3 units with DONL, PACI with TSCI, truncation, every accessor value; distinct = FNV-64 of the JSON case"
+const ruleC14 = "payloader: 1-2 calls of 1-6 (one case in ten: one call of 7-40 small) HEVC NAL units (types 0-47, layer 0-63, TID 1-7, F=1 rarely, sizes 3 bytes to several MTUs biased to MTU-4..MTU+4 and 2+k*(MTU-3)+-1 (one case in 60 holds a unit of 65530-131072 bytes), bodies free of start-code emulation, one unit in four ending in 00 00 03; 0-3 zero bytes in front of the first start code of a call), MTU >= 4 (>= 6 with DONL) biased to the floor and small values, SkipAggregation x AddDONL; every payload is parsed by an independent RFC 7798 parser and by H265Packet (all accessors must agree): <= MTU, single = unit (+DONL), AP type 48/F=0/min layer/min TID/>=2 units, FU trains >=2 with S/E placement and FuType/F/layer/TID preserved, DONL placement, IsPartitionHead, byte-exact reassembly. decoder: reference-built single/AP(2-6 units)/FU(start,middle,end)/PACI(+TSCI) payloads with and without DONL/DOND and every truncation: too-short ones rejected, others read field by field as the reference parser; half of the cases decode 1-3 other payloads through the same H265Packet first, and the payloader check decodes every stream through one H265Packet besides a fresh one per payload (readings must agree, and what Packet() returned for earlier payloads must still read the same at the end). accessors: all 2^16 payload headers, 2^8 FU headers, 2^16 PACI field words, TSCI triples (2^24 in thorough). Non-trivial = AP together with an FU train, unit length within the single-packet threshold window, AP>=3 units with DONL, PACI with TSCI, truncation, every accessor value; distinct = FNV-64 of the JSON case"
 
 func TestC14(t *testing.T) {
 	r := begin(t, "C14", "exploration", ruleC14)
